@@ -132,7 +132,16 @@ class Interp(OpsMixin, BuiltinsMixin):
         # vacuity cover: requires satisfiable (checked once, on the first path)
         if not self.run.prefix and not self.run.feasible():
             raise Unsupported("vacuous: requires unsatisfiable")
-        self.func_stack.append((info.qualname.split(".")[-1], info, None))
+        first = None
+        owner = None
+        pos = fn.args.posonlyargs + fn.args.args
+        if "." in info.qualname and pos and "staticmethod" not in info.decorators:
+            first = env.vars.get(pos[0].arg)
+            try:
+                owner = ClassRef.get(info.relpath, info.qualname.split(".")[-2])
+            except extract.ExtractError:
+                owner = None
+        self.func_stack.append((info.qualname.split(".")[-1], info, first, owner))
         outcome = None
         from .ops import _has_yield
 
